@@ -83,18 +83,22 @@ def check(model, rep, tier):
   key_index = prep.params().index(keyp)
   ok = len(cc) == 1 and tpl.xnorm(prep, cc[0].args[0], cc[0]) == \
       'self.replacements[%s]' % keyp
+  def derives(e, at, depth=0):
+    """e is the clean copy, or a list built of it (at: a node of the statement)"""
+    if e is cc[0]:
+      return True
+    if isinstance(e, ast.List):
+      return bool(e.elts) and all(derives(x, at, depth) for x in e.elts)
+    if isinstance(e, ast.Name) and depth < 4:
+      ds = rd.reaching(at, e.id) or []
+      return bool(ds) and all(
+          not isinstance(d, tuple) and (
+              (isinstance(d, ast.List) and all(isinstance(x, ast.Name) and x.id == e.id
+                                               for x in d.elts)) or
+              derives(d, d, depth + 1)) for d in ds)
+    return False
   if ok:
-    for r in rets:
-      if not isinstance(r.value, ast.Name):
-        ok = False
-        continue
-      ds = rd.reaching(r, r.value.id) or []
-      for d in ds:
-        if isinstance(d, tuple):
-          ok = False
-        elif d is not cc[0] and not (isinstance(d, ast.List) and all(
-            isinstance(e, ast.Name) and e.id == r.value.id for e in d.elts)):
-          ok = False
+    ok = bool(rets) and all(r.value is not None and derives(r.value, r.value) for r in rets)
   rep.check(ok, 'TREE-COPY', '%s:returns-clean-copy' % prep.site,
             'every value returned by _prepare_replacement must derive from '
             'ast_util.copy_clean(replacement): handing out the caller\'s node '
@@ -167,7 +171,12 @@ def check(model, rep, tier):
   # ---------------------------------------------------------------- TREE-CTX
   vn = rt.methods['visit_Name']
   nprm = vn.params()[0]
-  n1, b1 = pat.first(vn.node, '_A_ = ContextAdjuster(type(%s.ctx))' % nprm)
+  b1 = None
+  for a_ in ast.walk(vn.node):
+    if isinstance(a_, ast.Assign) and len(a_.targets) == 1 and isinstance(
+        a_.targets[0], ast.Name) and tpl.xnorm(vn, a_.value, a_) == \
+        'ContextAdjuster(type(%s.ctx))' % nprm:
+      b1 = {'_A_': a_.targets[0].id}
   b2 = None
   for a_ in ast.walk(vn.node):
     if isinstance(a_, ast.Assign) and isinstance(a_.value, ast.Call) and core.norm(
@@ -266,10 +275,35 @@ def check(model, rep, tier):
   cv = ca.methods.get('visit')
   if cv is None:
     raise core.AnalysisError('ContextAdjuster.visit not found')
+  # the override lives in the attribute __init__ stores its parameter in
+  ci = ca.methods.get('__init__')
+  ovs = [a.targets[0].attr for a in ast.walk(ci.node) if isinstance(a, ast.Assign) and
+         isinstance(a.targets[0], ast.Attribute) and core.norm(a.targets[0].value) == 'self'
+         and isinstance(a.value, ast.Name) and a.value.id in ci.params()] if ci else []
+  if len(ovs) != 1:
+    raise core.AnalysisError('ContextAdjuster.__init__ no longer stores one override')
+  OV = 'self.' + ovs[0]
+
+  def applies_override(fi, depth=0):
+    """fi sets <node>.ctx = <override>() (itself, or through a method of the class)"""
+    if not fi.params():
+      return False
+    p = fi.params()[0]
+    for a in ast.walk(fi.node):
+      if isinstance(a, ast.Assign) and core.norm(a.targets[0]) == p + '.ctx' and \
+          tpl.xnorm(fi, a.value, a) == OV + '()':
+        return True
+      if isinstance(a, ast.Call) and isinstance(a.func, ast.Attribute) and \
+          core.norm(a.func.value) == 'self' and a.func.attr in ca.methods and \
+          [core.norm(x) for x in a.args] == [p] and not a.keywords and depth < 2 and \
+          not a.func.attr.startswith('visit') and a.func.attr != 'generic_visit':
+        if applies_override(ca.methods[a.func.attr], depth + 1):
+          return True
+    return False
   g = pycfg.CFG(cv.node)
   save = restore = disp = None
   for i, (k, a) in enumerate(g.nodes):
-    if isinstance(a, ast.Assign) and core.norm(a.value) == 'self._ctx_override' \
+    if isinstance(a, ast.Assign) and core.norm(a.value) == OV \
         and isinstance(a.targets[0], ast.Name):
       save = (i, a.targets[0].id)
     if isinstance(a, ast.Assign) and any(
@@ -280,7 +314,7 @@ def check(model, rep, tier):
   if save:
     for i, (k, a) in enumerate(g.nodes):
       if isinstance(a, ast.Assign) and core.norm(a.targets[0]) == \
-          'self._ctx_override' and core.norm(a.value) == save[1]:
+          OV and core.norm(a.value) == save[1]:
         restore = i
   ok = save is not None and restore is not None and disp is not None
   if ok:
@@ -299,8 +333,8 @@ def check(model, rep, tier):
             'gets ctx=Load in a Store position')
   for hname, want in (('visit_Attribute', 'ast.Load'), ('visit_Subscript', 'ast.Load')):
     h = ca.methods.get(hname)
-    ok = h is not None and ('self._ctx_override = %s' % want) in core.norm(h.node) \
-        and 'self._apply_override(node)' in core.norm(h.node)
+    ok = h is not None and ('%s = %s' % (OV, want)) in core.norm(h.node) \
+        and applies_override(h)
     rep.check(ok, 'TREE-CTX', '%s:%s:children-load' % (TPL, hname),
               'the object of an attribute / subscript is always read (Load)',
               line=h.node.lineno if h else None)
@@ -312,7 +346,7 @@ def check(model, rep, tier):
     if ok:
       hg = pycfg.CFG(h.node)
       clears = [i for i, (k, a) in enumerate(hg.nodes) if isinstance(a, ast.Assign) and
-                core.norm(a.targets[0]) == 'self._ctx_override' and isinstance(
+                core.norm(a.targets[0]) == OV and isinstance(
                     a.value, ast.Constant) and a.value.value is None]
       descends = [i for i in range(len(hg.nodes)) if any(
           core.dotted(c.func) in ('self.generic_visit', 'self.visit')
